@@ -19,6 +19,7 @@ ENV = dict(os.environ, CARGO_NET_OFFLINE='true', CARGO_TERM_COLOR='never')
 CRATE_SOURCES = {
     'mina_core': ['core/src', 'core/Cargo.toml', 'Cargo.toml'],
     'lyon_geom': ['Cargo.lock', 'core/Cargo.toml'],
+    'mina_macros': ['macros/src', 'macros/Cargo.toml'],
     'bevy_mina': ['bevy/src', 'bevy/Cargo.toml', 'core/src', 'macros/src', 'src', 'Cargo.toml'],
     'subjects': ['core/src', 'macros/src', 'src', 'Cargo.toml', 'core/Cargo.toml', 'macros/Cargo.toml'],
 }
